@@ -485,8 +485,13 @@ class Engine:
             n = seq_len(v, self.lens)
             if n is not None and 0 <= i < n:
                 return seq_concat(seq_slice(v, 0, i, self.lens) + [("array", (val,))] + seq_slice(v, i + 1, n, self.lens), self.lens)
+        if k == "vidx" and v[0] == "box":
+            return ("box", self.update(v[1], path, val))        # indexing a Box<[T; N]> indexes its array
         if k == "vidx":
             i = e[1]
+            if v[0] == "vmap" and i[0] == "int" and len(v) > 4 and isinstance(v[4], int) and 0 <= i[1] < v[4] <= 64:
+                # a write at a constant position into an element-wise map of known length: materialise it
+                v = ("array", tuple(self.index_value(v, ("int", j)) for j in range(v[4])))
             if v[0] == "repeat" and i[0] == "int" and isinstance(v[2], int) and 0 <= i[1] < v[2] <= 64:
                 v = ("array", (v[1],) * v[2])
             if v[0] == "array" and i[0] == "int":
@@ -778,7 +783,7 @@ class Engine:
                 r = self.resolve(st, fr, (op[1][0], op[1][1][:-2]))
                 if r[0] != "val":
                     cellv = self.read_loc(st, r[0], r[1])
-                    if cellv is not None and cellv[0] in ("box", "lv", "loopout", "some_iter"):
+                    if cellv is not None and cellv[0] not in ("undef",):
                         return ("ref", r[0], r[1] + (("unbox",),))
             if v[0] == "boxp":
                 return ("refv", v[1])
@@ -1508,6 +1513,9 @@ class Engine:
         if st[2] != ("idx", uid):
             return None
         e = st[3]
+        # in-place update `a[i] = f(a[i], ..)`: slot i is written once, so the `a[i]` it reads is the initial one
+        own_old = self.index_value(base, ("idx", uid))
+        e = self.subst(e, {("at", lv, ("idx", uid)): own_old, ("at", ("box", lv), ("idx", uid)): own_old})
         for c2 in M:
             if contains_term(e, ("lv", uid, c2)):
                 return None
@@ -1765,12 +1773,15 @@ def seq_len(v, lens=None):
         return lens.get(v) if lens is not None else None
     if k == "slice_of" and v[2][0] == "int" and v[3][0] == "int":
         return v[3][1] - v[2][1]
-    if k in ("copied", "refv", "box"):
+    if k in ("copied", "refv", "box", "deref"):
         return seq_len(v[1], lens)
     if k == "digest":
         return 32
+    if lens is not None:
+        n = lens.get(v)
+        if isinstance(n, int):
+            return n
     return None
-
 
 
 
@@ -1782,6 +1793,8 @@ def seq_slice(v, lo, hi, lens=None):
     if k == "array":
         return [("array", v[1][lo:hi])]
     if k == "repeat":
+        if hi - lo <= 8:
+            return [("array", (v[1],) * (hi - lo))]       # a short run is the explicit element list
         return [("repeat", v[1], hi - lo)]
     if k == "concat":
         out = []
